@@ -136,7 +136,10 @@ class Unit:
         try:
             numerator[0] = float(numerator[0])
             if len(denominator) > 1:
-                numerator[0] /= float(denominator.pop(0))
+                denominator_value = float(denominator.pop(0))
+                if denominator_value in (float('inf'), float('-inf')):
+                    raise ValueError("Value is not a finite number.")
+                numerator[0] /= denominator_value
         except (ValueError, ZeroDivisionError) as exc:
             raise ValueError("Value is not a float.") from exc
         if numerator[0] != numerator[0] or numerator[0] in (float('inf'), float('-inf')):
